@@ -439,6 +439,13 @@ func systematicPkgCases(id *int, profile, scratch string, rng *rand.Rand, tier s
 				{Type: "file", Src: "src/app.conf", Dst: "/usr/share/samesrcpkg/d.conf"}}
 			add(c, smallTree(), "same-source")
 		}
+		// entries beneath a symbolic link / a regular file: the list is rejected for every format (nothing is shipped below
+		// something that is not a directory)
+		for _, first := range []Entry{{Type: "symlink", Src: "/opt/demo/releases/1", Dst: "/opt/demo/current"}, {Type: "file", Src: "src/bin", Dst: "/opt/demo/current"}} {
+			c := baseCfg("beneathpkg")
+			c.Entries = []Entry{plain, first, {Type: "file", Src: "src/app.conf", Dst: "/opt/demo/current/conf/app.conf"}, {Type: "dir", Dst: "/opt/demo/current/data"}}
+			add(c, smallTree(), "beneath-non-directory")
+		}
 		// a directory as the source of a file entry: with a destination that ends in a slash every file found below it goes
 		// directly into that directory; without the slash the structure is kept
 		for _, d := range []string{"/usr/share/flatpkg/", "/usr/share/flatpkg"} {
